@@ -14,16 +14,7 @@ From Nexus Require Import Codec.Bytes Codec.Values Codec.Tlv Codec.MsgPack Codec
      Codec.Schema Codec.MsgList Codec.Serial.
 Import ListNotations.
 
-Section CanonBy.
-  Variable ch : head -> head.
-  Fixpoint canon_by (v : value) : value :=
-    match v with
-    | VInt k z => match ch (HInt k z) with HInt k' z' => VInt k' z' | _ => v end
-    | VList l => VList (map canon_by l)
-    | VDict d => VDict (map (fun kv => (fst kv, canon_by (snd kv))) d)
-    | _ => v
-    end.
-End CanonBy.
+
 
 Definition canon_mp : value -> value := canon_by mp_canon_head.
 Definition canon_cb : value -> value := canon_by cb_canon_head.
